@@ -4,6 +4,13 @@
 //! rationals), axes have rational norm (so `normalized()` is exact).  The oracle is Rodrigues'
 //! formula from the definition (`vx::matx::rodrigues`) applied to the basis; the real matrices are
 //! decoded through their public fields.  Float tier: f64/f32 against Rodrigues computed in f64.
+//!
+//! Audit round (sections 10-14): every `Into<Vec3>` operand form of the 3D builders; call sequences
+//! (in-place and by-value chains, additivity of Vec2 / Mat2 / quaternion chains, odd multiples);
+//! extreme axis lengths in the exact tier (lambda = 2^+-27 .. 2^+-40) and in the float tier (axis
+//! scaled by 2^+-40 f32 / 2^+-400 f64, where the exact tier goes blind as soon as a rewrite leaves
+//! the modelled operations); special, tiny and large float angles; float chained / in-place forms
+//! and quaternion x/y/z builders; Vec2 at extreme magnitudes.
 use vek::Quaternion;
 use vx::matx::*;
 use vx::q::angle_base_t;
@@ -485,6 +492,339 @@ macro_rules! float_tier { ($s:expr, $T:ty) => {{
     }
 }} }
 
+// ==== additions of the audit round ==================================================================
+use vek::vec::repr_c::{Extent3, Rgb, Uvw};
+
+// ---- A. every `Into<Vec3<T>>` operand form the builders accept ------------------------------------
+trait RotV<const N: usize>: MatIO<X, N> + Copy {
+    const VNAME: &'static str;
+    fn v_rot<V: Into<Vec3<X>>>(a: X, v: V) -> Self;
+    fn v_rotated<V: Into<Vec3<X>>>(self, a: X, v: V) -> Self;
+    fn v_rotate<V: Into<Vec3<X>>>(&mut self, a: X, v: V);
+}
+macro_rules! rotv { ($M:ty, $N:expr, $name:expr) => {
+    impl RotV<$N> for $M {
+        const VNAME: &'static str = $name;
+        fn v_rot<V: Into<Vec3<X>>>(a: X, v: V) -> Self { Self::rotation_3d(a, v) }
+        fn v_rotated<V: Into<Vec3<X>>>(self, a: X, v: V) -> Self { self.rotated_3d(a, v) }
+        fn v_rotate<V: Into<Vec3<X>>>(&mut self, a: X, v: V) { self.rotate_3d(a, v) }
+    } } }
+rotv!(rm::Mat3<X>, 3, "Mat3<row>");
+rotv!(cm::Mat3<X>, 3, "Mat3<col>");
+rotv!(rm::Mat4<X>, 4, "Mat4<row>");
+rotv!(cm::Mat4<X>, 4, "Mat4<col>");
+
+const FORM_CLASSES: [&str; 10] = ["[T;3]", "(T,T,T)", "Vec4(w=5 ignored)", "Vec4(w=0)", "(Vec2,T)", "mint::Vector3", "Extent3", "Rgb", "Uvw", "Vec2(z=0)"];
+
+/// one operand form x one matrix type: rotation_3d, rotated_3d, rotate_3d against Rodrigues (* self)
+fn form_case<const N: usize, M: RotV<N>, V: Into<Vec3<X>> + Copy>(s: &Section, form: &str, v: V, a: Ang, unit: &[X; 3], m: &A<X, N>, desc: &dyn Fn() -> Value, w: u64) {
+    let (c, sn) = a.cs(); let th = a.tok();
+    let rot: A<X, N> = embed::<X, 3, N>(&rodrigues(unit, c, sn));
+    let pre = mmul(&rot, m);
+    let site = format!("{}::rotation_3d(axis: {})", M::VNAME, form);
+    let inp = || json!({"axis_passed_as": form, "axis": desc(), "angle": a.json(), "self": jmat(m)});
+    s.eval(!a.trivial()); s.class(form);
+    if let Some((g, ret, ip)) = s.call(&site, inp, || { let real_m = M::build(m); let mut ip = real_m; ip.v_rotate(th, v); (M::v_rot(th, v).decode(), real_m.v_rotated(th, v).decode(), ip.decode()) }) {
+        if g != rot { s.violation_w(&site, "not-rodrigues-of-the-xyz-part-of-the-operand", json!({"input": inp(), "got": jmat(&g), "want": jmat(&rot)}), w); }
+        if ret != pre { s.violation_w(&format!("{}::rotated_3d(axis: {})", M::VNAME, form), "not-rotation-times-self", json!({"input": inp(), "got": jmat(&ret), "want": jmat(&pre)}), w); }
+        if ip != pre { s.violation_w(&format!("{}::rotate_3d(axis: {})", M::VNAME, form), "in-place-form-differs", json!({"input": inp(), "rotate": jmat(&ip), "want": jmat(&pre)}), w); }
+        if !a.trivial() && form.starts_with("Vec4(w=5") && s.wants_sample() { s.sample(json!({"call": site, "input": inp(), "real_output": jmat(&g)})); }
+    }
+}
+fn qform_case<V: Into<Vec3<X>> + Copy>(s: &Section, form: &str, v: V, a: Ang, unit: &[X; 3], q0: &[X; 4], desc: &dyn Fn() -> Value, w: u64) {
+    let th = a.tok();
+    let rq = ref_quat(unit, a);
+    let pre = ham(&rq, q0);
+    let site = format!("Quaternion::rotation_3d(axis: {})", form);
+    let inp = || json!({"axis_passed_as": form, "axis": desc(), "angle": a.json(), "self_xyzw": jxs(q0)});
+    s.eval(!a.trivial()); s.class(form);
+    if let Some((g, ret, ip)) = s.call(&site, inp, || { let real_q = mkq(q0); let mut ip = real_q; ip.rotate_3d(th, v); (dq(Quaternion::rotation_3d(th, v)), dq(real_q.rotated_3d(th, v)), dq(ip)) }) {
+        if g != rq && g != negq(&rq) { s.violation_w(&site, "not-half-angle-axis-form-of-the-xyz-part-of-the-operand", json!({"input": inp(), "got_xyzw": jxs(&g), "want_xyzw": jxs(&rq)}), w); }
+        if ret != pre && ret != negq(&pre) { s.violation_w(&format!("Quaternion::rotated_3d(axis: {})", form), "not-the-hamilton-product-rotation*self", json!({"input": inp(), "got_xyzw": jxs(&ret), "want_xyzw": jxs(&pre)}), w); }
+        if ip != ret { s.violation_w(&format!("Quaternion::rotate_3d(axis: {})", form), "in-place-form-differs", json!({"input": inp(), "rotate": jxs(&ip), "rotated": jxs(&ret)}), w); }
+    }
+}
+macro_rules! all_forms { ($case:ident [$($gen:tt)*], $s:expr, $axes:expr, $planar:expr, $angs:expr, $m:expr) => {{
+    for ax in $axes { let g = ax.given(); let d = || ax.json(); for &a in $angs { let w = a.weight() + ax.weight();
+        $case::<$($gen)* _>($s, "[T;3]", [g[0], g[1], g[2]], a, &ax.unit, $m, &d, w);
+        $case::<$($gen)* _>($s, "(T,T,T)", (g[0], g[1], g[2]), a, &ax.unit, $m, &d, w);
+        $case::<$($gen)* _>($s, "Vec4(w=5 ignored)", Vec4 { x: g[0], y: g[1], z: g[2], w: qi(5) }, a, &ax.unit, $m, &d, w);
+        $case::<$($gen)* _>($s, "Vec4(w=0)", Vec4 { x: g[0], y: g[1], z: g[2], w: qi(0) }, a, &ax.unit, $m, &d, w);
+        $case::<$($gen)* _>($s, "(Vec2,T)", (Vec2 { x: g[0], y: g[1] }, g[2]), a, &ax.unit, $m, &d, w);
+        $case::<$($gen)* _>($s, "mint::Vector3", mint::Vector3 { x: g[0], y: g[1], z: g[2] }, a, &ax.unit, $m, &d, w);
+        $case::<$($gen)* _>($s, "Extent3", Extent3 { w: g[0], h: g[1], d: g[2] }, a, &ax.unit, $m, &d, w);
+        $case::<$($gen)* _>($s, "Rgb", Rgb { r: g[0], g: g[1], b: g[2] }, a, &ax.unit, $m, &d, w);
+        $case::<$($gen)* _>($s, "Uvw", Uvw { u: g[0], v: g[1], w: g[2] }, a, &ax.unit, $m, &d, w);
+    } }
+    for ax in $planar { let g = ax.given(); let d = || ax.json(); for &a in $angs { let w = a.weight() + ax.weight();
+        $case::<$($gen)* _>($s, "Vec2(z=0)", Vec2 { x: g[0], y: g[1] }, a, &ax.unit, $m, &d, w);
+    } }
+}} }
+
+// ---- B. call sequences ------------------------------------------------------------------------------
+/// kind 0..2 = about x/y/z, 3 = about the section's arbitrary axis
+#[derive(Clone, Copy, Debug)]
+struct Step { kind: usize, a: Ang }
+fn step_unit(st: &Step, ax: &Axis) -> [X; 3] { if st.kind < 3 { e3(st.kind) } else { ax.unit } }
+fn step_json(seq: &[Step], ax: &Axis) -> Value { Value::Array(seq.iter().map(|st| json!({"about": if st.kind < 3 { json!(XYZ[st.kind]) } else { ax.json() }, "angle": st.a.json()})).collect()) }
+/// every word of length 1..=3 over {x, y, z, 3d} and the 24 orders of all four; angles assigned by position from `pool` rotated by `off`
+fn sequences(pool: &[Ang], offs: &[usize]) -> Vec<Vec<Step>> {
+    let mut words: Vec<Vec<usize>> = Vec::new();
+    for a in 0..4 { words.push(vec![a]); for b in 0..4 { words.push(vec![a, b]); for c in 0..4 { words.push(vec![a, b, c]); } } }
+    for a in 0..4 { for b in 0..4 { for c in 0..4 { for d in 0..4 { let w = [a, b, c, d]; let mut seen = [false; 4]; for k in w { seen[k] = true; } if seen.iter().all(|x| *x) { words.push(w.to_vec()); } } } } }
+    let mut out = Vec::new();
+    for &off in offs { for w in &words { out.push(w.iter().enumerate().map(|(i, &kind)| Step { kind, a: pool[(i + off + kind) % pool.len()] }).collect()); } }
+    out
+}
+fn sec_seq<const N: usize, M: RotM<X, N>>(s: &Section, ms: &[A<X, N>], axes: &[Axis], seqs: &[Vec<Step>]) {
+    let (site_ip, site_val) = (format!("{}::rotate_* sequence", M::NAME), format!("{}::rotated_* chain", M::NAME));
+    for m in ms { for ax in axes { let given = ax.given(); for seq in seqs {
+        let inp = || json!({"self": jmat(m), "steps_in_call_order": step_json(seq, ax)});
+        let w: u64 = seq.iter().map(|st| st.a.weight()).sum::<u64>() + ax.weight();
+        // reference: each call pre-multiplies
+        let mut want = *m; let mut prefixes = Vec::new();
+        for st in seq { let (c, sn) = st.a.cs(); want = mmul(&embed::<X, 3, N>(&rodrigues(&step_unit(st, ax), c, sn)), &want); prefixes.push(want); }
+        let rev = { let mut r = *m; for st in seq.iter().rev() { let (c, sn) = st.a.cs(); r = mmul(&embed::<X, 3, N>(&rodrigues(&step_unit(st, ax), c, sn)), &r); } r };
+        s.eval(want != rev); s.class(if want != rev { "sequence-order-matters" } else { "sequence-order-irrelevant" }); s.class(match seq.len() { 1 => "length-1", 2 => "length-2", 3 => "length-3", _ => "length-4" });
+        let r = s.call(&site_ip, inp, || {
+            let mut ip = M::build(m); let mut val = M::build(m); let mut pre = Vec::new();
+            for st in seq {
+                if st.kind < 3 { ip.t_rotate(st.kind, st.a.tok()); val = val.t_rotated(st.kind, st.a.tok()); } else { ip.t_rotate3d(st.a.tok(), given); val = val.t_rotated3d(st.a.tok(), given); }
+                pre.push(ip.decode());
+            }
+            (pre, val.decode())
+        });
+        if let Some((pre, val)) = r {
+            if let Some(k) = (0..seq.len()).find(|&k| pre[k] != prefixes[k]) { s.violation_w(&site_ip, "state-after-in-place-call-sequence-is-not-the-reference-product", json!({"input": inp(), "first_wrong_after_step": k + 1, "got": jmat(&pre[k]), "want": jmat(&prefixes[k])}), w); }
+            if val != want { s.violation_w(&site_val, "chained-by-value-sequence-is-not-the-reference-product", json!({"input": inp(), "got": jmat(&val), "want": jmat(&want)}), w); }
+            if want != rev && seq.len() == 4 && s.wants_sample() { s.sample(json!({"call": site_ip, "input": inp(), "real_final_state": jmat(pre.last().unwrap())})); }
+        }
+    } } }
+}
+
+// ---- C. exact tier: extreme axis lengths -----------------------------------------------------------
+fn sec_extreme_exact<const N: usize, M: RotM<X, N>>(s: &Section, axes: &[Axis], lams: &[(X, &'static str)], angs: &[Ang]) {
+    let site = format!("{}::rotation_3d", M::NAME);
+    for ax0 in axes { for &(lam, cls) in lams { let ax = Axis { unit: ax0.unit, lam }; let given = ax.given(); for &a in angs {
+        let (c, sn) = a.cs(); let th = a.tok();
+        let want: A<X, N> = embed::<X, 3, N>(&rodrigues(&ax.unit, c, sn));
+        let inp = || json!({"angle": a.json(), "axis": ax.json()});
+        s.eval(!a.trivial()); s.class(cls);
+        if let Some(g) = s.call(&site, inp, || M::t_rot3d(th, given).decode()) {
+            if g != want { s.violation_w(&site, "not-rodrigues-at-extreme-axis-length", json!({"input": inp(), "got": jmat(&g), "want": jmat(&want)}), a.weight() + ax0.weight()); }
+        }
+    } } }
+}
+
+// ---- D. float tier extensions ----------------------------------------------------------------------
+trait FQ2<T: Copy>: Sized + Copy {
+    fn q_axis(i: usize, a: T) -> Self;
+    fn q_rotated(self, i: usize, a: T) -> Self;
+    fn q_rotate(&mut self, i: usize, a: T);
+    fn q_rotated3d(self, a: T, ax: [T; 3]) -> Self;
+    fn q_rotate3d(&mut self, a: T, ax: [T; 3]);
+}
+macro_rules! fq2 { ($($T:ty),*) => { $( impl FQ2<$T> for Quaternion<$T> {
+    fn q_axis(i: usize, a: $T) -> Self { match i { 0 => Quaternion::rotation_x(a), 1 => Quaternion::rotation_y(a), _ => Quaternion::rotation_z(a) } }
+    fn q_rotated(self, i: usize, a: $T) -> Self { match i { 0 => self.rotated_x(a), 1 => self.rotated_y(a), _ => self.rotated_z(a) } }
+    fn q_rotate(&mut self, i: usize, a: $T) { match i { 0 => self.rotate_x(a), 1 => self.rotate_y(a), _ => self.rotate_z(a) } }
+    fn q_rotated3d(self, a: $T, ax: [$T; 3]) -> Self { self.rotated_3d(a, v3(&ax)) }
+    fn q_rotate3d(&mut self, a: $T, ax: [$T; 3]) { self.rotate_3d(a, v3(&ax)) }
+} )* } }
+fq2!(f64, f32);
+
+fn unitf(a: &[f64; 3]) -> [f64; 3] { let n = (a[0] * a[0] + a[1] * a[1] + a[2] * a[2]).sqrt(); [a[0] / n, a[1] / n, a[2] / n] }
+fn q2m_f(q: &[f64; 4]) -> A<f64, 3> { ref_q2m::<f64>(q) }
+fn dmat<T: Fl, const N: usize>(g: &A<T, N>) -> Vec<Vec<f64>> { g.iter().map(|r| r.iter().map(|v| v.d()).collect()).collect() }
+/// entrywise |got - want| <= 256 eps * scale[j]  (scale per column: sum of |self| down the column, the largest partial sum of the product)
+fn fcmpn<T: Fl, const N: usize>(s: &Section, site: &str, class: &str, got: &A<T, N>, want: &A<f64, N>, scale: &[f64; N], inp: &dyn Fn() -> Value) {
+    s.eval(true);
+    let mut ok = true; let mut worst = 0.0f64;
+    for i in 0..N { for j in 0..N { if !got[i][j].close(want[i][j], scale[j]) { ok = false; } worst = worst.max((got[i][j].d() - want[i][j]).abs()); } }
+    if !ok { s.violation(&format!("{}<{}>", site, T::NAME), class, json!({"input": inp(), "worst_entry_error": worst, "got": dmat(got), "want": want.iter().map(|r| r.to_vec()).collect::<Vec<_>>()})); }
+}
+/// rotation_3d, from(Quaternion::rotation_3d) and the quaternion's own fields for an axis handed over in T, against the f64 unit axis `k`
+fn fext_3d<T: Fl, const N: usize, M: RotM<T, N>>(s: &Section, class: &str, af: T, c: f64, sn: f64, axf: [T; 3], k: &[f64; 3], inp: &dyn Fn() -> Value) where Quaternion<T>: FQ<T> {
+    let want = rodrigues_f(k, c, sn);
+    fcmp::<T, N>(s, &format!("{}::rotation_3d", M::NAME), class, &M::t_rot3d(af, axf).decode(), &want, inp);
+    fcmp::<T, N>(s, &format!("{}::from(Quaternion::rotation_3d)", M::NAME), class, &M::t_from_quat(<Quaternion<T> as FQ<T>>::rot3d(af, axf)).decode(), &want, inp);
+}
+fn fext_quat_fields<T: Fl>(s: &Section, site: &str, class: &str, g: [T; 4], half: f64, k: &[f64; 3], inp: &dyn Fn() -> Value) {
+    s.eval(true);
+    let (sh, ch) = (half.sin(), half.cos());
+    let want = [k[0] * sh, k[1] * sh, k[2] * sh, ch];
+    let dot: f64 = (0..4).map(|i| g[i].d() * want[i]).sum();
+    let sg = if dot < 0.0 { -1.0 } else { 1.0 };
+    if !(0..4).all(|i| g[i].close(sg * want[i], 1.0)) { s.violation(&format!("{}<{}>", site, T::NAME), class, json!({"input": inp(), "got_xyzw": g.iter().map(|v| v.d()).collect::<Vec<_>>(), "want_xyzw_up_to_sign": want})); }
+}
+/// m.rotated_*(a) and m.rotate_*(a) on floats against the f64 product Rodrigues * m
+fn fext_chain<T: Fl, const N: usize, M: RotM<T, N>>(s: &Section, m: &A<f64, N>, af: T, c: f64, sn: f64, axf: [T; 3], k: &[f64; 3], ang64: f64) {
+    let mt: A<T, N> = { let mut o = [[T::f(0.0); N]; N]; for i in 0..N { for j in 0..N { o[i][j] = T::f(m[i][j]); } } o };
+    let real_m = M::build(&mt);
+    let mut scale = [1.0f64; N]; for j in 0..N { scale[j] = (0..N).map(|i| m[i][j].abs()).sum::<f64>().max(1.0); }
+    let inp = || json!({"angle": ang64, "self": m.iter().map(|r| r.to_vec()).collect::<Vec<_>>()});
+    for i in 0..3 {
+        let mut e = [0.0; 3]; e[i] = 1.0;
+        let want = mmul(&embed::<f64, 3, N>(&rodrigues_f(&e, c, sn)), m);
+        let mut ip = real_m; ip.t_rotate(i, af);
+        fcmpn::<T, N>(s, &format!("{}::rotated_{}", M::NAME, XYZ[i]), "not-rotation-times-self-within-error-bound", &real_m.t_rotated(i, af).decode(), &want, &scale, &inp);
+        fcmpn::<T, N>(s, &format!("{}::rotate_{}", M::NAME, XYZ[i]), "not-rotation-times-self-within-error-bound", &ip.decode(), &want, &scale, &inp);
+    }
+    let want = mmul(&embed::<f64, 3, N>(&rodrigues_f(k, c, sn)), m);
+    let inp = || json!({"angle": ang64, "axis": axf.iter().map(|v| v.d()).collect::<Vec<_>>(), "self": m.iter().map(|r| r.to_vec()).collect::<Vec<_>>()});
+    let mut ip = real_m; ip.t_rotate3d(af, axf);
+    fcmpn::<T, N>(s, &format!("{}::rotated_3d", M::NAME), "not-rotation-times-self-within-error-bound", &real_m.t_rotated3d(af, axf).decode(), &want, &scale, &inp);
+    fcmpn::<T, N>(s, &format!("{}::rotate_3d", M::NAME), "not-rotation-times-self-within-error-bound", &ip.decode(), &want, &scale, &inp);
+}
+
+macro_rules! float_ext { ($s:expr, $T:ty, $big:expr, $mid:expr, $huge:expr, $vbig:expr) => {{
+    let s: &Section = $s;
+    let th = s.thorough();
+    type T = $T;
+    let f = |v: f64| <T as Fl>::f(v);
+    s.require_classes(&["axis*2^+big", "axis*2^-big", "axis*2^+odd", "axis*2^-odd", "angle=+-0", "angle=+-pi", "angle=+-pi/2", "angle-tiny", "angle-large", "axis-irregular", "scalar-broadcast-axis", "vec2*2^+big", "vec2*2^-big"]);
+    // ---- (a) extreme axis magnitudes: the result does not depend on the axis length --------------------
+    let mut exps: Vec<(i32, &str)> = vec![($big, "axis*2^+big"), (-$big, "axis*2^-big"), ($mid, "axis*2^+odd"), (-(2 * $mid + 5), "axis*2^-odd")];
+    if th { exps.push(($huge, "axis*2^+big")); exps.push((-$huge, "axis*2^-big")); exps.push((1, "axis*2^+odd")); exps.push((-1, "axis*2^-odd")); }
+    let r = if th { 3i32 } else { 2 };
+    let mut axes: Vec<[f64; 3]> = Vec::new();
+    for x in -r..=r { for y in -r..=r { for z in -r..=r { if (x, y, z) != (0, 0, 0) { axes.push([x as f64, y as f64, z as f64]); } } } }
+    let n_grid = axes.len();
+    // irregular axes: components of very different size, non-dyadic components (rounded to T before use: the oracle sees the rounded value)
+    for a in [[1.0, 0.0009765625, -0.5], [0.3, -0.7, 0.2], [0.001, 1.0, -0.001], [-1e-4, 3e-5, 1.0], [1.23, -4.56, 7.89], [1.0, 1.0, 1e-6]] { axes.push(a); }
+    let pi = f(std::f64::consts::PI).d();
+    let angs_a: Vec<f64> = if th { (0..96).map(|i| -9.4 + i as f64 * 0.19791).chain([0.0, pi, -pi, pi / 2.0, 1e-9, 1000.0]).collect() } else { vec![0.0, 0.5, -0.5, 1.0, 2.0, 3.0, -3.0, pi, -pi, pi / 2.0, -pi / 2.0, 4.0, 6.0, -6.2, 9.313225746154785e-10, 100.0] };
+    s.meta("axis_scale_exponents", json!(exps.iter().map(|e| e.0).collect::<Vec<_>>())); s.meta("axes", json!(axes.len())); s.meta("angles_for_extreme_axes", json!(angs_a.len()));
+    for &(e, cls) in &exps { let sc = 2f64.powi(e); for (ai, ax) in axes.iter().enumerate() {
+        let axt = [f(ax[0]), f(ax[1]), f(ax[2])];
+        let k = unitf(&[axt[0].d(), axt[1].d(), axt[2].d()]);
+        let axf = [f(axt[0].d() * sc), f(axt[1].d() * sc), f(axt[2].d() * sc)];
+        for &an in &angs_a {
+            let af = f(an); let ang64 = af.d(); let (c, sn) = (ang64.cos(), ang64.sin());
+            s.class(cls); if ai >= n_grid { s.class("axis-irregular"); }
+            let inp = || json!({"angle": ang64, "axis_unscaled": ax, "axis_scale": format!("2^{}", e), "axis_given": axf.iter().map(|v| v.d()).collect::<Vec<_>>()});
+            let c1 = "not-rodrigues-within-error-bound-at-extreme-axis-length";
+            fext_3d::<T, 3, rm::Mat3<T>>(s, c1, af, c, sn, axf, &k, &inp); fext_3d::<T, 3, cm::Mat3<T>>(s, c1, af, c, sn, axf, &k, &inp);
+            fext_3d::<T, 4, rm::Mat4<T>>(s, c1, af, c, sn, axf, &k, &inp); fext_3d::<T, 4, cm::Mat4<T>>(s, c1, af, c, sn, axf, &k, &inp);
+            fext_quat_fields::<T>(s, "Quaternion::rotation_3d", "not-half-angle-axis-form-within-error-bound-at-extreme-axis-length", dq(Quaternion::<T>::rotation_3d(af, v3(&axf))), ang64 / 2.0, &k, &inp);
+            if s.wants_sample() && e == -$big && ai == 77 && an == 2.0 { s.sample(json!({"call": "Mat3<row>::rotation_3d", "input": inp(), "real_output": dmat(&rm::Mat3::<T>::rotation_3d(af, v3(&axf)).decode())})); }
+        }
+    } }
+    // ---- (b) special and large angles (axis length ordinary) --------------------------------------------
+    let tiny = 9.313225746154785e-10; // 2^-30
+    let mut angs_b: Vec<(f64, &str)> = vec![(0.0, "angle=+-0"), (-0.0, "angle=+-0"), (pi, "angle=+-pi"), (-pi, "angle=+-pi"), (pi / 2.0, "angle=+-pi/2"), (-pi / 2.0, "angle=+-pi/2"), (2.0 * pi, "angle=+-pi"), (tiny, "angle-tiny"), (-tiny, "angle-tiny"), (tiny * tiny, "angle-tiny"),
+        (1000.0, "angle-large"), (-1000.0, "angle-large"), (12345.678, "angle-large"), (-54321.0, "angle-large"), (1e6, "angle-large"), (-1e6, "angle-large"), (1048576.5, "angle-large"), (1e8, "angle-large")];
+    if th { for i in 0..400 { angs_b.push((7.0 + (i as f64) * (i as f64) * 61.803, "angle-large")); angs_b.push((-(7.0 + (i as f64) * (i as f64) * 61.803), "angle-large")); } for i in 1..60 { angs_b.push((2f64.powi(-i), "angle-tiny")); } }
+    s.meta("special_and_large_angles", json!(angs_b.len()));
+    let m3f: A<f64, 3> = [[1.0, 2.0, -3.0], [0.5, -4.0, 6.0], [7.0, 8.0, 10.25]];
+    let m4f: A<f64, 4> = [[1.0, 2.0, -3.0, 4.0], [0.5, -4.0, 6.0, 8.0], [7.0, 8.0, 10.25, -11.0], [13.0, -0.25, 14.0, 16.0]];
+    let m2f: A<f64, 2> = [[1.0, -2.0], [3.5, 5.0]];
+    let thin_axes: Vec<[f64; 3]> = axes.iter().enumerate().filter(|(i, _)| i % 7 == 0 || *i >= n_grid).map(|(_, a)| *a).collect();
+    let q0f: [f64; 4] = [0.5, -0.5, 0.5, 0.5];
+    let chain_angles = |v: &mut Vec<(f64, &'static str)>| { for i in 0..(if th { 256 } else { 24 }) { v.push((-6.2 + (i as f64) * (if th { 12.4 / 256.0 } else { 0.53 }), "angle-ordinary")); } };
+    chain_angles(&mut angs_b);
+    for &(an, cls) in &angs_b {
+        let af = f(an); let ang64 = af.d(); let (c, sn) = (ang64.cos(), ang64.sin());
+        s.class(cls);
+        float_xyz::<T, 3, rm::Mat3<T>>(s, af, c, sn, ang64); float_xyz::<T, 3, cm::Mat3<T>>(s, af, c, sn, ang64);
+        float_xyz::<T, 4, rm::Mat4<T>>(s, af, c, sn, ang64); float_xyz::<T, 4, cm::Mat4<T>>(s, af, c, sn, ang64);
+        // Mat2, Vec2
+        let m2 = [[c, -sn], [sn, c]];
+        for (name, g) in [("Mat2<row>::rotation_z", rm::Mat2::<T>::rotation_z(af).decode()), ("Mat2<col>::rotation_z", cm::Mat2::<T>::rotation_z(af).decode())] {
+            s.eval(true);
+            for i in 0..2 { for j in 0..2 { if !g[i][j].close(m2[i][j], 1.0) { s.violation(&format!("{}<{}>", name, <T as Fl>::NAME), "not-rodrigues-within-error-bound", json!({"angle": ang64, "entry": [i, j], "got": g[i][j].d(), "want": m2[i][j]})); } } }
+        }
+        let want2 = mmul(&m2, &m2f); let sc2 = [4.5, 7.0];
+        for lay in 0..2 {
+            let (nm, ret, ip) = if lay == 0 { let m = rm::Mat2::<T>::build(&[[f(1.0), f(-2.0)], [f(3.5), f(5.0)]]); let mut ip = m; ip.rotate_z(af); ("Mat2<row>", m.rotated_z(af).decode(), ip.decode()) }
+                                else { let m = cm::Mat2::<T>::build(&[[f(1.0), f(-2.0)], [f(3.5), f(5.0)]]); let mut ip = m; ip.rotate_z(af); ("Mat2<col>", m.rotated_z(af).decode(), ip.decode()) };
+            let inp = || json!({"angle": ang64, "self": [[1.0, -2.0], [3.5, 5.0]]});
+            fcmpn::<T, 2>(s, &format!("{}::rotated_z", nm), "not-rotation-times-self-within-error-bound", &ret, &want2, &sc2, &inp);
+            fcmpn::<T, 2>(s, &format!("{}::rotate_z", nm), "not-rotation-times-self-within-error-bound", &ip, &want2, &sc2, &inp);
+        }
+        for v in [[1.0f64, 0.0], [0.0, 1.0], [3.0, -4.0], [-0.5, 100.0], [-7.25, -1.0], [0.0, 0.0]] {
+            s.eval(true);
+            let vv = Vec2 { x: f(v[0]), y: f(v[1]) }; let r = vv.rotated_z(af); let mut ip = vv; ip.rotate_z(af);
+            let want = [c * v[0] - sn * v[1], sn * v[0] + c * v[1]];
+            let scale = v[0].abs() + v[1].abs();
+            if !r.x.close(want[0], scale) || !r.y.close(want[1], scale) { s.violation(&format!("Vec2::rotated_z<{}>", <T as Fl>::NAME), "not-ccw-rotation-within-error-bound", json!({"angle": ang64, "v": v, "got": [r.x.d(), r.y.d()], "want": want})); }
+            if !ip.x.close(want[0], scale) || !ip.y.close(want[1], scale) { s.violation(&format!("Vec2::rotate_z<{}>", <T as Fl>::NAME), "not-ccw-rotation-within-error-bound", json!({"angle": ang64, "v": v, "got": [ip.x.d(), ip.y.d()], "want": want})); }
+        }
+        // quaternion x/y/z builders: fields, their matrix through the real conversion, chained and in-place forms
+        let m0 = q2m_f(&q0f);
+        for i in 0..3 {
+            let mut e = [0.0; 3]; e[i] = 1.0;
+            let inp = || json!({"angle": ang64});
+            let qx = <Quaternion<T> as FQ2<T>>::q_axis(i, af);
+            fext_quat_fields::<T>(s, &format!("Quaternion::rotation_{}", XYZ[i]), "not-half-angle-axis-form-within-error-bound", dq(qx), ang64 / 2.0, &e, &inp);
+            let want = rodrigues_f(&e, c, sn);
+            fcmp::<T, 3>(s, &format!("Mat3<row>::from(Quaternion::rotation_{})", XYZ[i]), "not-rodrigues-within-error-bound", &rm::Mat3::<T>::from(qx).decode(), &want, &inp);
+            fcmp::<T, 3>(s, &format!("Mat3<col>::from(Quaternion::rotation_{})", XYZ[i]), "not-rodrigues-within-error-bound", &cm::Mat3::<T>::from(qx).decode(), &want, &inp);
+            fcmp::<T, 4>(s, &format!("Mat4<row>::from(Quaternion::rotation_{})", XYZ[i]), "not-rodrigues-within-error-bound", &rm::Mat4::<T>::from(qx).decode(), &want, &inp);
+            fcmp::<T, 4>(s, &format!("Mat4<col>::from(Quaternion::rotation_{})", XYZ[i]), "not-rodrigues-within-error-bound", &cm::Mat4::<T>::from(qx).decode(), &want, &inp);
+            // q0.rotated_i(a): the textbook matrix of the resulting fields (f64) == Rodrigues * matrix(q0)
+            let q0t: Quaternion<T> = Quaternion { x: f(q0f[0]), y: f(q0f[1]), z: f(q0f[2]), w: f(q0f[3]) };
+            let mut ip = q0t; <Quaternion<T> as FQ2<T>>::q_rotate(&mut ip, i, af);
+            let wantm = mmul(&want, &m0);
+            let inp = || json!({"angle": ang64, "self_xyzw": q0f});
+            for (nm, g) in [("rotated", dq(<Quaternion<T> as FQ2<T>>::q_rotated(q0t, i, af))), ("rotate", dq(ip))] {
+                let gm = q2m_f(&[g[0].d(), g[1].d(), g[2].d(), g[3].d()]);
+                s.eval(true);
+                // entries of the textbook matrix are 1 - 2(..) with |fields| <= 1: largest intermediate 2, error of the fields <= 16 eps each enters at most 4 products doubled
+                if !(0..3).all(|r| (0..3).all(|cc| <T as Fl>::f(gm[r][cc]).close(wantm[r][cc], 2.0))) { s.violation(&format!("Quaternion::{}_{}<{}>", nm, XYZ[i], <T as Fl>::NAME), "not-rotation-times-self-within-error-bound", json!({"input": inp(), "got_xyzw": g.iter().map(|v| v.d()).collect::<Vec<_>>(), "its_matrix": gm.iter().map(|r| r.to_vec()).collect::<Vec<_>>(), "want_matrix": wantm.iter().map(|r| r.to_vec()).collect::<Vec<_>>()})); }
+            }
+        }
+        // arbitrary axes: builders at the special angles, chained / in-place forms
+        for ax in &thin_axes {
+            let axt = [f(ax[0]), f(ax[1]), f(ax[2])];
+            let k = unitf(&[axt[0].d(), axt[1].d(), axt[2].d()]);
+            let inp = || json!({"angle": ang64, "axis": ax});
+            let c1 = "not-rodrigues-within-error-bound";
+            if cls != "angle-ordinary" {
+                fext_3d::<T, 3, rm::Mat3<T>>(s, c1, af, c, sn, axt, &k, &inp); fext_3d::<T, 3, cm::Mat3<T>>(s, c1, af, c, sn, axt, &k, &inp);
+                fext_3d::<T, 4, rm::Mat4<T>>(s, c1, af, c, sn, axt, &k, &inp); fext_3d::<T, 4, cm::Mat4<T>>(s, c1, af, c, sn, axt, &k, &inp);
+                fext_quat_fields::<T>(s, "Quaternion::rotation_3d", "not-half-angle-axis-form-within-error-bound", dq(Quaternion::<T>::rotation_3d(af, v3(&axt))), ang64 / 2.0, &k, &inp);
+            }
+            fext_chain::<T, 3, rm::Mat3<T>>(s, &m3f, af, c, sn, axt, &k, ang64); fext_chain::<T, 3, cm::Mat3<T>>(s, &m3f, af, c, sn, axt, &k, ang64);
+            fext_chain::<T, 4, rm::Mat4<T>>(s, &m4f, af, c, sn, axt, &k, ang64); fext_chain::<T, 4, cm::Mat4<T>>(s, &m4f, af, c, sn, axt, &k, ang64);
+            let q0t: Quaternion<T> = Quaternion { x: f(q0f[0]), y: f(q0f[1]), z: f(q0f[2]), w: f(q0f[3]) };
+            let mut ip = q0t; <Quaternion<T> as FQ2<T>>::q_rotate3d(&mut ip, af, axt);
+            let wantm = mmul(&rodrigues_f(&k, c, sn), &m0);
+            for (nm, g) in [("rotated_3d", dq(<Quaternion<T> as FQ2<T>>::q_rotated3d(q0t, af, axt))), ("rotate_3d", dq(ip))] {
+                let gm = q2m_f(&[g[0].d(), g[1].d(), g[2].d(), g[3].d()]);
+                s.eval(true);
+                if !(0..3).all(|r| (0..3).all(|cc| <T as Fl>::f(gm[r][cc]).close(wantm[r][cc], 2.0))) { s.violation(&format!("Quaternion::{}<{}>", nm, <T as Fl>::NAME), "not-rotation-times-self-within-error-bound", json!({"input": inp(), "self_xyzw": q0f, "got_xyzw": g.iter().map(|v| v.d()).collect::<Vec<_>>(), "want_matrix": wantm.iter().map(|r| r.to_vec()).collect::<Vec<_>>()})); }
+            }
+        }
+        // a scalar broadcasts to the axis (t, t, t)
+        if cls != "angle-ordinary" {
+            s.class("scalar-broadcast-axis");
+            let k = unitf(&[1.0, 1.0, 1.0]);
+            let inp = || json!({"angle": ang64, "axis": "the scalar 2.5, i.e. (2.5, 2.5, 2.5)"});
+            fcmp::<T, 3>(s, "Mat3<row>::rotation_3d(axis: T)", "not-rodrigues-within-error-bound", &rm::Mat3::<T>::rotation_3d(af, f(2.5)).decode(), &rodrigues_f(&k, c, sn), &inp);
+            fcmp::<T, 4>(s, "Mat4<col>::rotation_3d(axis: T)", "not-rodrigues-within-error-bound", &cm::Mat4::<T>::rotation_3d(af, f(2.5)).decode(), &rodrigues_f(&k, c, sn), &inp);
+            fext_quat_fields::<T>(s, "Quaternion::rotation_3d(axis: T)", "not-half-angle-axis-form-within-error-bound", dq(Quaternion::<T>::rotation_3d(af, f(2.5))), ang64 / 2.0, &k, &inp);
+        }
+    }
+    // ---- (c) Vec2 at extreme magnitudes: the rotation is linear, so it scales exactly with 2^e ------------
+    let vexps: Vec<(i32, &str)> = vec![($big, "vec2*2^+big"), (-$big, "vec2*2^-big"), ($vbig, "vec2*2^+big"), (-$vbig, "vec2*2^-big")];
+    s.meta("vec2_scale_exponents", json!(vexps.iter().map(|e| e.0).collect::<Vec<_>>()));
+    for &(e, cls) in &vexps { let sc = 2f64.powi(e);
+        for &an in &angs_a { let af = f(an); let ang64 = af.d(); let (c, sn) = (ang64.cos(), ang64.sin());
+            for v in [[1.0f64, 0.0], [0.0, 1.0], [3.0, -4.0], [-0.5, 100.0], [-7.25, -1.0], [1.0, 1.0]] {
+                s.eval(true); s.class(cls);
+                let vv = Vec2 { x: f(v[0] * sc), y: f(v[1] * sc) }; let r = vv.rotated_z(af); let mut ip = vv; ip.rotate_z(af);
+                let want = [(c * v[0] - sn * v[1]) * sc, (sn * v[0] + c * v[1]) * sc];
+                let scale = (v[0].abs() + v[1].abs()) * sc;
+                // close() clamps the scale below at MIN_POSITIVE: compare the quotients instead
+                let okv = |g: T, w: f64| { let gd = g.d(); !gd.is_nan() && (gd / sc - w / sc).abs() <= 256.0 * (<T>::EPSILON as f64) * (scale / sc) };
+                if !okv(r.x, want[0]) || !okv(r.y, want[1]) { s.violation(&format!("Vec2::rotated_z<{}>", <T as Fl>::NAME), "not-ccw-rotation-within-error-bound-at-extreme-magnitude", json!({"angle": ang64, "v_unscaled": v, "scale": format!("2^{}", e), "got/scale": [r.x.d() / sc, r.y.d() / sc], "want/scale": [want[0] / sc, want[1] / sc]})); }
+                if !okv(ip.x, want[0]) || !okv(ip.y, want[1]) { s.violation(&format!("Vec2::rotate_z<{}>", <T as Fl>::NAME), "not-ccw-rotation-within-error-bound-at-extreme-magnitude", json!({"angle": ang64, "v_unscaled": v, "scale": format!("2^{}", e), "got/scale": [ip.x.d() / sc, ip.y.d() / sc], "want/scale": [want[0] / sc, want[1] / sc]})); }
+            }
+        }
+    }
+}} }
+
 fn main() {
     let rep = Report::start("C04", "exploration");
     let th = rep.thorough();
@@ -701,6 +1041,133 @@ fn main() {
     let rule_f = "64 angles -6.2 + 0.1937 i (thorough: 1024 angles -6.28 + 12.56 i/1024; all in (-2pi, 2pi)) x all 124 integer axes of {-2..2}^3 minus 0: rotation_3d of Mat3/Mat4 (both layouts) and Mat3/Mat4::from(Quaternion::rotation_3d) vs Rodrigues computed in f64 from f64::sin/cos of the very angle the code received (the f32 angle converted exactly) and the axis normalised in f64; per angle also rotation_x/y/z, Mat2::rotation_z and Vec2::rotated_z on 5 vectors; tolerance 256 * eps(type) * scale with scale = 2 for matrices (largest intermediate 1 - cos <= 2; each entry is a sum of <= 2 products of <= 4 correctly rounded factors plus the normalisation and the libm sin/cos, < 40 eps relative forward error on either side) and |x|+|y| for Vec2: a derived bound, not tuned; non-trivial: all";
     rep.section("float tier f64", rule_f, true, false, |s| float_tier!(s, f64));
     rep.section("float tier f32", rule_f, true, false, |s| float_tier!(s, f32));
+
+    // ==== additions of the audit round ================================================================
+    let r4 = affine4(&rodrigues(&[q(2, 7), q(3, 7), q(6, 7)], q(3, 5), q(4, 5)), &[qi(1), qi(-2), qi(3)]);
+    let i4: A<X, 4> = [[qi(1), qi(2), qi(3), qi(4)], [qi(5), qi(6), qi(7), qi(8)], [qi(9), qi(10), qi(12), qi(11)], [qi(13), qi(15), qi(14), qi(16)]];
+    let i3: A<X, 3> = [[qi(1), qi(2), qi(3)], [qi(4), qi(5), qi(6)], [qi(7), qi(8), qi(10)]];
+    let r3s = { let mut r3 = rodrigues(&[q(1, 3), q(2, 3), q(2, 3)], q(-4, 5), q(3, 5)); for i in 0..3 { r3[i][1] = r3[i][1] * qi(2); } r3 };
+    let q0s: [[X; 4]; 3] = [[q(6, 35), q(9, 35), q(18, 35), q(4, 5)], [q(-5, 39), q(-10, 39), q(-10, 39), q(12, 13)], [q(3, 5), qi(0), qi(0), q(-4, 5)]];
+
+    // ---- 10. operand forms ----------------------------------------------------------------------------
+    rep.section("axis operand forms: every Into<Vec3> the 3D builders accept",
+        "rotation_3d / rotated_3d / rotate_3d are generic over V: Into<Vec3<T>>; the axis is handed over as [T;3], (T,T,T), Vec4 with w = 5 (w must be ignored) and w = 0, (Vec2, T), mint::Vector3, Extent3, Rgb, Uvw (all struct literals), and as Vec2 (z := 0, axes in the XY plane) x thinned axis family (unit and non-unit) x five angles in different quadrants (thorough: every angle +-2*arg(z) of the even alphabet) x Mat3, Mat4 (both layouts; self = a full non-symmetric integer matrix) and Quaternion (self = a non-trivial unit quaternion): decoded rotation_3d == Rodrigues(unit axis of the (x,y,z) part), rotated_3d / rotate_3d == reference product Rodrigues * self; quaternion fields == +-(axis sin(theta/2), cos(theta/2)) and +-Hamilton(reference, self); non-trivial: R != I", true, false, |s| {
+        s.require_classes(&FORM_CLASSES);
+        let angs: Vec<Ang> = if th { even.iter().copied().filter(|a| a.k.abs() <= 2).collect() } else { vec![ang(1, 3, 2), ang(1, 2, -2), ang(2, 1, 2), ang(1, 1, 2), ang(1, 5, 4)] };
+        let planar: Vec<Axis> = vec![Axis { unit: [q(3, 5), q(4, 5), qi(0)], lam: qi(1) }, Axis { unit: [q(-4, 5), q(3, 5), qi(0)], lam: qi(2) }, Axis { unit: [qi(0), qi(-1), qi(0)], lam: q(1, 3) }, Axis { unit: [q(5, 13), q(-12, 13), qi(0)], lam: qi(13) }, Axis { unit: [qi(1), qi(0), qi(0)], lam: qi(1) }];
+        all_forms!(form_case [3, rm::Mat3<X>,], s, &few_axes, &planar, &angs, &i3);
+        all_forms!(form_case [3, cm::Mat3<X>,], s, &few_axes, &planar, &angs, &i3);
+        all_forms!(form_case [4, rm::Mat4<X>,], s, &few_axes, &planar, &angs, &i4);
+        all_forms!(form_case [4, cm::Mat4<X>,], s, &few_axes, &planar, &angs, &i4);
+        all_forms!(qform_case [], s, &few_axes, &planar, &angs, &q0s[0]);
+        s.meta("axes", json!(few_axes.len())); s.meta("planar_axes", json!(planar.len())); s.meta("angles", json!(angs.len()));
+    });
+
+    // ---- 11. call sequences ---------------------------------------------------------------------------
+    rep.section("call sequences: in-place rotate_* calls accumulate as successive pre-multiplications; additivity of the chained forms",
+        "one object, a sequence of in-place calls m.rotate_k1(a1); m.rotate_k2(a2); ... and the same chain by value m.rotated_k1(a1).rotated_k2(a2)...: every word of length 1..3 over {x, y, z, 3d} (84) and all 24 orders of the four kinds, angles taken by position from a pool of four (quick: two assignments, thorough: four), the 3d axis from three (thorough six) non-coordinate axes, self = a non-symmetric matrix with translation / a full integer matrix, Mat3 and Mat4 in both layouts: the decoded state after EVERY prefix of the in-place sequence == reference product R_k ... R_1 * self (Rodrigues on arrays), final by-value chain likewise; matrix additivity R(a)R(b) = R(a+b) = Rodrigues(a+b) and rotation(b).rotated(a) once more over ODD multiples {-3,-1,1,3,5} of two (thorough five) bases, all ordered pairs, x/y/z and the 3d axes; Mat2: rotate_z(a); rotate_z(b) and rotated_z(a).rotated_z(b) == Rot(a+b) * self for all ordered pairs of six multiples of three bases; Vec2: v.rotated_z(a).rotated_z(b) and two in-place rotate_z == Rot(a+b) v; Quaternion: rotation_3d(b, axis).rotated_3d(a, axis) == +-rotation_3d(a+b, axis) fields, rotation_k(b).rotated_k(a) likewise, and in-place sequences over the same words: textbook matrix of the final fields == reference product, fields == +-Hamilton chain; non-trivial: reversing the call order changes the reference result", true, false, |s| {
+        s.require_classes(&["sequence-order-matters", "length-1", "length-2", "length-3", "length-4", "quaternion-sequence-order-matters", "vec2-additive", "mat2-additive", "quaternion-chained-additive"]);
+        let pool = [ang(1, 3, 2), ang(1, 2, -2), ang(2, 1, 4), ang(1, 5, 2)];
+        let seqs = sequences(&pool, if th { &[0, 1, 2, 3] } else { &[0, 2] });
+        let gen_axes: Vec<Axis> = axes.iter().filter(|a| !a.coordinate()).step_by(axes.len() / (if th { 6 } else { 3 })).take(if th { 6 } else { 3 }).copied().collect();
+        s.meta("sequences", json!(seqs.len())); s.meta("axes", Value::Array(gen_axes.iter().map(|a| a.json()).collect()));
+        sec_seq::<3, rm::Mat3<X>>(s, &[r3s, i3], &gen_axes, &seqs); sec_seq::<3, cm::Mat3<X>>(s, &[r3s, i3], &gen_axes, &seqs);
+        sec_seq::<4, rm::Mat4<X>>(s, &[r4, i4], &gen_axes, &seqs); sec_seq::<4, cm::Mat4<X>>(s, &[r4, i4], &gen_axes, &seqs);
+        // quaternion sequences
+        for q0 in &q0s { let m0 = ref_q2m(q0); for ax in &gen_axes { let given = ax.given(); for seq in &seqs {
+            let inp = || json!({"self_xyzw": jxs(q0), "steps_in_call_order": step_json(seq, ax)});
+            let w: u64 = seq.iter().map(|st| st.a.weight()).sum::<u64>() + ax.weight();
+            let (mut wantm, mut wantq, mut revm) = (m0, *q0, m0);
+            for st in seq { let (c, sn) = st.a.cs(); let u = step_unit(st, ax); wantm = mmul(&rodrigues(&u, c, sn), &wantm); wantq = ham(&ref_quat(&u, st.a), &wantq); }
+            for st in seq.iter().rev() { let (c, sn) = st.a.cs(); revm = mmul(&rodrigues(&step_unit(st, ax), c, sn), &revm); }
+            s.eval(wantm != revm); if wantm != revm { s.class("quaternion-sequence-order-matters"); }
+            let r = s.call("Quaternion::rotate_* sequence", inp, || {
+                let mut ip = mkq(q0); let mut val = mkq(q0);
+                for st in seq { let t = st.a.tok(); match st.kind { 0 => { ip.rotate_x(t); val = val.rotated_x(t); } 1 => { ip.rotate_y(t); val = val.rotated_y(t); } 2 => { ip.rotate_z(t); val = val.rotated_z(t); } _ => { ip.rotate_3d(t, v3(&given)); val = val.rotated_3d(t, v3(&given)); } } }
+                (dq(ip), dq(val), ref_q2m(&dq(ip)))
+            });
+            if let Some((ip, val, m)) = r {
+                if m != wantm { s.violation_w("Quaternion::rotate_* sequence", "state-after-in-place-call-sequence-is-not-the-reference-product", json!({"input": inp(), "got_xyzw": jxs(&ip), "its_matrix": jmat(&m), "want_matrix": jmat(&wantm)}), w); }
+                else if ip != wantq && ip != negq(&wantq) { s.violation_w("Quaternion::rotate_* sequence", "not-the-hamilton-chain", json!({"input": inp(), "got_xyzw": jxs(&ip), "want_xyzw": jxs(&wantq)}), w); }
+                if val != ip { s.violation_w("Quaternion::rotated_* chain", "chained-by-value-sequence-differs-from-in-place-sequence", json!({"input": inp(), "chain": jxs(&val), "in_place": jxs(&ip)}), w); }
+            }
+        } } }
+        // additivity over ODD multiples (matrix-only code paths; the additivity section uses even multiples because of the half-angle quaternions)
+        let odd_bases: Vec<(i128, i128)> = if th { vec![(1, 3), (2, 1), (1, 2), (1, 5), (-1, 2)] } else { vec![(1, 3), (2, 1)] };
+        let odd_ks: Vec<i128> = vec![-3, -1, 1, 3, 5];
+        sec_add::<3, rm::Mat3<X>>(s, &gen_axes, &odd_bases, &odd_ks); sec_add::<3, cm::Mat3<X>>(s, &gen_axes, &odd_bases, &odd_ks);
+        sec_add::<4, rm::Mat4<X>>(s, &gen_axes, &odd_bases, &odd_ks); sec_add::<4, cm::Mat4<X>>(s, &gen_axes, &odd_bases, &odd_ks);
+        // additivity of the chained forms: quaternion, Mat2, Vec2
+        let m2s: [A<X, 2>; 2] = [[[qi(1), qi(2)], [qi(3), qi(5)]], [[qi(0), qi(-1)], [qi(2), qi(7)]]];
+        let mut vs: Vec<[X; 2]> = Vec::new(); for x in -2..=2 { for y in -2..=2 { vs.push([qi(x), qi(y)]); } } vs.push([q(1, 2), q(-3, 7)]); vs.push([qi(5), qi(12)]);
+        for &(tn, td) in &add_bases { for &ka in &add_ks { for &kb in &add_ks {
+            let (a, b) = (ang(tn, td, ka), ang(tn, td, kb));
+            let (cs, ss) = a.plus(b).cs();
+            let nontriv = !a.trivial() && !b.trivial();
+            let w = a.weight() + b.weight();
+            let inp = || json!({"a": a.json(), "b": b.json()});
+            for ax in &few_axes {
+                let given = ax.given(); let inp = || json!({"a": a.json(), "b": b.json(), "axis": ax.json()});
+                s.eval(nontriv); s.class("quaternion-chained-additive");
+                if let Some((ch, sum)) = s.call("Quaternion::rotated_3d", inp, || (dq(Quaternion::rotation_3d(b.tok(), v3(&given)).rotated_3d(a.tok(), v3(&given))), dq(Quaternion::rotation_3d(a.tok() + b.tok(), v3(&given))))) {
+                    if ch != sum && ch != negq(&sum) { s.violation_w("Quaternion::rotated_3d", "chained-rotation-not-additive", json!({"input": inp(), "rotation(b).rotated(a)": jxs(&ch), "rotation(a+b)": jxs(&sum)}), w + ax.weight()); }
+                }
+            }
+            for i in 0..3 {
+                s.eval(nontriv); s.class("quaternion-chained-additive");
+                let site = format!("Quaternion::rotated_{}", XYZ[i]);
+                if let Some((ch, sum)) = s.call(&site, inp, || { let (ta, tb, tsum) = (a.tok(), b.tok(), a.tok() + b.tok()); match i {
+                    0 => (dq(Quaternion::rotation_x(tb).rotated_x(ta)), dq(Quaternion::rotation_x(tsum))), 1 => (dq(Quaternion::rotation_y(tb).rotated_y(ta)), dq(Quaternion::rotation_y(tsum))), _ => (dq(Quaternion::rotation_z(tb).rotated_z(ta)), dq(Quaternion::rotation_z(tsum))) } }) {
+                    if ch != sum && ch != negq(&sum) { s.violation_w(&site, "chained-rotation-not-additive", json!({"input": inp(), "rotation(b).rotated(a)": jxs(&ch), "rotation(a+b)": jxs(&sum)}), w); }
+                }
+            }
+            let rot: A<X, 2> = [[cs, -ss], [ss, cs]];
+            for m in &m2s { let want = mmul(&rot, m);
+                let inp = || json!({"self": jmat(m), "a": a.json(), "b": b.json()});
+                s.eval(nontriv); s.class("mat2-additive");
+                if let Some((r1, r2, c1, c2)) = s.call("Mat2::rotate_z sequence", inp, || {
+                    let (mut ir, mut ic) = (rm::Mat2::<X>::build(m), cm::Mat2::<X>::build(m)); ir.rotate_z(a.tok()); ir.rotate_z(b.tok()); ic.rotate_z(a.tok()); ic.rotate_z(b.tok());
+                    (ir.decode(), rm::Mat2::<X>::build(m).rotated_z(a.tok()).rotated_z(b.tok()).decode(), ic.decode(), cm::Mat2::<X>::build(m).rotated_z(a.tok()).rotated_z(b.tok()).decode())
+                }) {
+                    if r1 != want || r2 != want { s.violation_w("Mat2<row>::rotate_z sequence", "two-successive-rotations-are-not-the-rotation-by-the-sum", json!({"input": inp(), "in_place": jmat(&r1), "by_value": jmat(&r2), "want": jmat(&want)}), w); }
+                    if c1 != want || c2 != want { s.violation_w("Mat2<col>::rotate_z sequence", "two-successive-rotations-are-not-the-rotation-by-the-sum", json!({"input": inp(), "in_place": jmat(&c1), "by_value": jmat(&c2), "want": jmat(&want)}), w); }
+                }
+            }
+            for v in &vs { let want = mvec(&rot, v);
+                let inp = || json!({"v": jxs(v), "a": a.json(), "b": b.json()});
+                s.eval(nontriv && *v != [qi(0), qi(0)]); s.class("vec2-additive");
+                if let Some((g, ip)) = s.call("Vec2::rotated_z", inp, || { let vv = Vec2 { x: v[0], y: v[1] }; let mut ip = vv; ip.rotate_z(a.tok()); ip.rotate_z(b.tok()); (dv2(&vv.rotated_z(a.tok()).rotated_z(b.tok())), dv2(&ip)) }) {
+                    if g != want { s.violation_w("Vec2::rotated_z", "two-successive-rotations-are-not-the-rotation-by-the-sum", json!({"input": inp(), "got": jxs(&g), "want": jxs(&want)}), w); }
+                    if ip != want { s.violation_w("Vec2::rotate_z", "two-successive-rotations-are-not-the-rotation-by-the-sum", json!({"input": inp(), "got": jxs(&ip), "want": jxs(&want)}), w); }
+                }
+            }
+        } } }
+    });
+
+    // ---- 12. exact tier: extreme axis lengths -----------------------------------------------------------
+    rep.section("extreme axis lengths (exact): rotation_3d(theta, lambda*unit) = Rodrigues(unit) for lambda = 2^+-27, 2^+-40, 3*2^-33, 5*2^35",
+        &format!("every unit axis of the thinned family (coordinate and rational unit vectors) x lambda in {{2^-40, 2^-27, 3*2^-33, 2^27, 5*2^35, 2^40}} (squared lengths from 2^-80 to 2^80: far below the element type's epsilon 2^-52 and far above its reciprocal, so a small-length guard or an epsilon comparison inside the builder would misfire) x every even-multiple angle: decoded rotation_3d of Mat3/Mat4 (both layouts) == Rodrigues(unit axis) and Quaternion::rotation_3d fields == +-(unit sin(theta/2), cos(theta/2)), independent oracle; non-trivial: R != I.  {}", bezout), true, false, |s| {
+        s.require_classes(&["lambda-tiny", "lambda-huge"]);
+        let p2 = |k: u32| qi(1i128 << k);
+        let lams: Vec<(X, &'static str)> = vec![(qi(1) / p2(40), "lambda-tiny"), (qi(1) / p2(27), "lambda-tiny"), (qi(3) / p2(33), "lambda-tiny"), (p2(27), "lambda-huge"), (qi(5) * p2(35), "lambda-huge"), (p2(40), "lambda-huge")];
+        let units: Vec<Axis> = few_axes.iter().filter(|a| a.lam == qi(1)).copied().collect();
+        sec_extreme_exact::<3, rm::Mat3<X>>(s, &units, &lams, &even); sec_extreme_exact::<3, cm::Mat3<X>>(s, &units, &lams, &even);
+        sec_extreme_exact::<4, rm::Mat4<X>>(s, &units, &lams, &even); sec_extreme_exact::<4, cm::Mat4<X>>(s, &units, &lams, &even);
+        for ax0 in &units { for &(lam, cls) in &lams { let ax = Axis { unit: ax0.unit, lam }; let given = ax.given(); for &a in &even {
+            let want_q = ref_quat(&ax.unit, a);
+            let inp = || json!({"angle": a.json(), "axis": ax.json()});
+            s.eval(!a.trivial()); s.class(cls);
+            if let Some(g) = s.call("Quaternion::rotation_3d", inp, || dq(Quaternion::rotation_3d(a.tok(), v3(&given)))) {
+                if g != want_q && g != negq(&want_q) { s.violation_w("Quaternion::rotation_3d", "not-half-angle-axis-form-at-extreme-axis-length", json!({"input": inp(), "got_xyzw": jxs(&g), "want_xyzw": jxs(&want_q)}), a.weight() + ax0.weight()); }
+            }
+        } } }
+        alphabet_meta(s, &even, units.len());
+    });
+
+    // ---- 13./14. float tier extensions ------------------------------------------------------------------
+    let rule_fx = "(a) extreme axis lengths: integer axes of {-2..2}^3 minus 0 (thorough {-3..3}^3) and six irregular axes (components of very different size, non-dyadic components; the oracle normalises the T-rounded components in f64) scaled by 2^e, e in {+-40, 13, -31} for f32 and {+-400, 133, -271} for f64 (thorough also +-60 / +-500 and +-1), x 16 angles (thorough 102): rotation_3d of Mat3/Mat4 (both layouts), Mat::from(Quaternion::rotation_3d) and the fields of Quaternion::rotation_3d (up to a common sign) vs Rodrigues / (k sin(theta/2), cos(theta/2)) of the UNSCALED axis computed in f64 (a power-of-two factor is exact in every operation of the normalisation, and the squared length stays inside the normal range, so the result must not depend on it; a guard against short axes or a product of squared lengths breaks here); (b) special and large angles: +-0, +-pi, +-pi/2, 2pi, +-2^-30, 2^-60, +-1e3, 12345.678, -54321, +-1e6, 2^20+0.5, 1e8 (thorough: 800 more up to 1e7 and 2^-1..2^-59) plus 24 (thorough 256) ordinary angles: rotation_x/y/z, Mat2::rotation_z, Vec2 rotated_z/rotate_z (incl. v = 0), Quaternion::rotation_x/y/z fields and Mat3/Mat4::from of them, the chained and in-place forms rotated_*/rotate_* of Mat2/Mat3/Mat4 (both layouts; self = full non-symmetric matrix) and Quaternion (self = (1,-1,1,1)/2) over every 7th grid axis and the irregular ones vs the f64 reference product (bound per column: 256 eps * sum |self| of the column), and the scalar-broadcast axis form rotation_3d(theta, 2.5) = axis (1,1,1); (c) Vec2 scaled by 2^+-40 and 2^+-90 (f32) / 2^+-400 and 2^+-900 (f64): rotation is linear, result/scale must match within 256 eps (|x|+|y|); the oracle uses f64 sin/cos of exactly the angle the code received; non-trivial: all";
+    rep.section("float tier f64: extreme axis lengths, special and large angles, chained/in-place and quaternion x/y/z forms, Vec2 at extreme magnitudes", rule_fx, true, false, |s| float_ext!(s, f64, 400, 133, 500, 900));
+    rep.section("float tier f32: extreme axis lengths, special and large angles, chained/in-place and quaternion x/y/z forms, Vec2 at extreme magnitudes", rule_fx, true, false, |s| float_ext!(s, f32, 40, 13, 60, 90));
 
     std::process::exit(rep.finish());
 }
